@@ -52,6 +52,22 @@ func errPositions(msg string) string {
 }
 
 func init() {
+	// the lexer's own rune loop: rune:width:line:col:tcol per call of next() until eof
+	handlers["lextrace"] = func(toks []string) string {
+		var b strings.Builder
+		b.WriteString("trace ")
+		tr := yang.VerifLexerTrace(string(unhex(toks[0])))
+		if len(tr) == 0 {
+			b.WriteString("-")
+		}
+		for i, t := range tr {
+			if i > 0 {
+				b.WriteString(",")
+			}
+			fmt.Fprintf(&b, "%d:%d:%d:%d:%d", t[0], t[1], t[2], t[3], t[4])
+		}
+		return b.String()
+	}
 	handlers["parse"] = func(toks []string) string {
 		text := string(unhex(toks[0]))
 		ss, err := yang.Parse(text, parseFile)
